@@ -63,9 +63,20 @@ func (w *World) verifyFunction(fn *ssa.Function, fc *FuncContract) (res *FuncRes
 		}
 		fr.paramTV[n] = TV{c, p.Type()}
 		enc.inputs = append(enc.inputs, inputVar{Name: n, T: c, Sort: so, Ty: p.Type()})
-		if _, ok := p.Type().Underlying().(*types.Pointer); ok {
+		if pt, ok := p.Type().Underlying().(*types.Pointer); ok {
 			if fc == nil || !fc.Nilable[n] {
 				enc.assume(Not(Eq(c, IntLit(0))), "default precondition: "+n+" != nil")
+			}
+			// the reference-typed fields of the pointed-to struct are allocated references too
+			if _, isStruct := pt.Elem().Underlying().(*types.Struct); isStruct && !isBuilderType(pt.Elem()) {
+				s := w.structSort(pt.Elem())
+				e0 := &Env{w: w, vars: map[string]TV{}, state: st}
+				for i, f := range s.Fields {
+					switch f.Type.Underlying().(type) {
+					case *types.Pointer, *types.Slice, *types.Map, *types.Struct:
+						fr.assumeWF(e0.loadField(st, s, i, c), f.Type, st, 1)
+					}
+				}
 			}
 		}
 	}
